@@ -379,14 +379,14 @@ def case_strategy():
 
 def plan(tier, seed):
     if tier == "quick":
-        return [{"task": "hyp", "examples": 150} for _ in range(16)]
+        return [{"task": "hyp", "examples": 260} for _ in range(8)]
     return [{"task": "hyp", "examples": 5000} for _ in range(32)]
 
 
 def run_task(ctx, task, **kw):
     if task != "hyp":
         raise core.HarnessError(f"unknown task {task}")
-    core.hyp_run(ctx, case_strategy(), lambda c: check_case(ctx, c), kw["examples"], chunk=350)
+    core.hyp_run(ctx, case_strategy(), lambda c: check_case(ctx, c), kw["examples"], chunk=130)
 
 
 def replay(ctx, case):
